@@ -1,6 +1,6 @@
 //! Emission of the Verus exec unit and of the mirror spec functions for one type.
 use crate::db::{Db, Func, PartKind, Rhs, INHERENT_TRAITS, STD_OPS};
-use crate::eval::{self, Kind, Mirror, ParamSpec};
+use crate::eval::{self, is_vec_type, vec_leaves, vec_outs, Ix, Kind, Mirror, ParamSpec};
 use crate::rewrite::Rw;
 use quote::ToTokens;
 use serde_json::json;
@@ -10,11 +10,20 @@ use syn::FnArg;
 
 pub struct UnitOut {
     pub exec: String,
+    /// same items with `external_body` stubs instead of bodies (used by the units that call into this one)
+    pub iface: String,
     pub mirror: String,
     pub meta: serde_json::Value,
 }
 
+pub const RES: &str = "ret_";
+
 fn allowed(f: &Func, contracts: &serde_json::Value) -> Result<(), String> {
+    if let Some(sk) = contracts["skip_ids"].as_array() {
+        if sk.iter().any(|s| s.as_str() == Some(f.id().as_str())) {
+            return Err("skip list".into());
+        }
+    }
     if let Some(sk) = contracts["skip_methods"].as_array() {
         if sk.iter().any(|s| s.as_str() == Some(f.name.as_str())) {
             return Err("skip list".into());
@@ -55,68 +64,135 @@ fn kind_to_type(k: &Kind) -> String {
     }
 }
 
-/// accessor expressions (spec-level views) for a value of kind `k` rooted at expression `root`
-fn views(db: &Db, k: &Kind, root: &str, out: &mut Vec<String>) {
+#[derive(Clone, Copy, PartialEq)]
+enum VMode {
+    Full,
+    Only(Ix),
+    ReOnly,
+}
+
+fn orient(db: &Db, ty: &str, part: &str) -> (bool, bool) {
+    for (p, k) in &db.types[ty].parts {
+        if p == part {
+            if let PartKind::Deriv(r, c) = k {
+                return (r == "U1", c == "U1");
+            }
+        }
+    }
+    (false, false)
+}
+
+fn dense_at(db: &Db, ty: &str, root: &str, part: &str, idx: &[Ix], var1: &str) -> String {
+    let (row_unit, _) = orient(db, ty, part);
+    match idx {
+        [_] => {
+            if row_unit {
+                format!("{root}.{part}.dense(0, {var1})")
+            } else {
+                format!("{root}.{part}.dense({var1}, 0)")
+            }
+        }
+        _ => format!("{root}.{part}.dense(i, j)"),
+    }
+}
+
+/// spec-level views of a value of kind `k` rooted at expression `root`, in canonical flat order
+fn views(db: &Db, k: &Kind, root: &str, mode: VMode, out: &mut Vec<String>) {
     match k {
         Kind::Sc | Kind::Fl => out.push(format!("{root}@")),
         Kind::Int(_) => out.push(format!("({root} as int)")),
         Kind::Bool => out.push(root.to_string()),
         Kind::Unit => {}
         Kind::Struct(t) => {
-            for (p, _) in &db.types[t].parts {
-                out.push(format!("{root}.{p}@"));
+            for (_, part, idx) in vec_leaves(db, t) {
+                if idx.is_empty() {
+                    out.push(format!("{root}.{part}@"));
+                    continue;
+                }
+                let e = match (mode, idx.as_slice()) {
+                    (VMode::Full, [Ix::I]) => dense_at(db, t, root, &part, &idx, "i"),
+                    (VMode::Full, [Ix::J]) => dense_at(db, t, root, &part, &idx, "j"),
+                    (VMode::Full, [_, _]) => dense_at(db, t, root, &part, &idx, ""),
+                    (VMode::Only(nat), [y]) if *y == nat => dense_at(db, t, root, &part, &idx, "k"),
+                    _ => "0real".to_string(),
+                };
+                out.push(e);
             }
         }
         Kind::Tuple(v) => {
             for (i, k) in v.iter().enumerate() {
-                views(db, k, &format!("{root}.{i}"), out);
+                views(db, k, &format!("{root}.{i}"), mode, out);
             }
         }
         Kind::Opt(_) => {}
     }
 }
 
-fn out_accessors(db: &Db, k: &Kind, root: &str, prefix: &str, out: &mut Vec<(String, String)>) {
+fn all_views(db: &Db, ps: &[ParamSpec], mode: VMode) -> String {
+    let mut v = vec![];
+    for p in ps {
+        let root = if p.is_mut && p.name == "self" { "old(self)".to_string() } else { p.name.clone() };
+        views(db, &p.kind, &root, mode, &mut v);
+    }
+    v.join(", ")
+}
+
+/// ensures clauses tying the result (rooted at `root`) to the mirror functions
+fn ensures_for(db: &Db, mname: &str, k: &Kind, root: &str, prefix: &str, ps: &[ParamSpec], out: &mut Vec<String>) {
     let key = |s: &str| if prefix.is_empty() { s.to_string() } else if s.is_empty() { prefix.to_string() } else { format!("{prefix}_{s}") };
+    let scalar = |acc: String, part: String| format!("{acc} == {mname}_{part}({})", all_views(db, ps, VMode::ReOnly));
     match k {
-        Kind::Sc | Kind::Fl => out.push((key(if prefix.is_empty() { "ret" } else { "" }), format!("{root}@"))),
-        Kind::Int(_) => out.push((key(if prefix.is_empty() { "ret" } else { "" }), format!("({root} as int)"))),
-        Kind::Bool => out.push((key(if prefix.is_empty() { "ret" } else { "" }), root.to_string())),
+        Kind::Sc | Kind::Fl => out.push(scalar(format!("{root}@"), key(if prefix.is_empty() { "ret" } else { "" }))),
+        Kind::Int(_) => out.push(scalar(format!("({root} as int)"), key(if prefix.is_empty() { "ret" } else { "" }))),
+        Kind::Bool => out.push(scalar(root.to_string(), key(if prefix.is_empty() { "ret" } else { "" }))),
         Kind::Unit => {}
         Kind::Struct(t) => {
-            for (p, _) in &db.types[t].parts {
-                out.push((key(p), format!("{root}.{p}@")));
+            for (oname, part, idx) in vec_outs(db, t) {
+                match idx.as_slice() {
+                    [] => out.push(scalar(format!("{root}.{part}@"), key(&oname))),
+                    [x] => {
+                        let acc = dense_at(db, t, root, &part, &idx, "k");
+                        out.push(format!(
+                            "forall|k: int| #![trigger {acc}] {acc} == {mname}_{}({})",
+                            key(&oname),
+                            all_views(db, ps, VMode::Only(*x))
+                        ));
+                    }
+                    _ => {
+                        let acc = dense_at(db, t, root, &part, &idx, "");
+                        out.push(format!(
+                            "forall|i: int, j: int| #![trigger {acc}] {acc} == {mname}_{}({})",
+                            key(&oname),
+                            all_views(db, ps, VMode::Full)
+                        ));
+                    }
+                }
+            }
+            if is_vec_type(db, t) {
+                out.push(format!("{root}.wf()"));
             }
         }
         Kind::Tuple(v) => {
             for (i, k) in v.iter().enumerate() {
-                out_accessors(db, k, &format!("{root}.{i}"), &key(&i.to_string()), out);
+                ensures_for(db, mname, k, &format!("{root}.{i}"), &key(&i.to_string()), ps, out);
             }
         }
         Kind::Opt(_) => {}
     }
 }
 
-fn requires_for(contracts: &serde_json::Value, f: &Func, ps: &[ParamSpec]) -> Vec<String> {
+fn table_requires(contracts: &serde_json::Value, f: &Func, second_kind: &str, mutself: bool, p1: &str) -> Vec<String> {
     let mut v = vec![];
     let entry = &contracts["requires"][f.name.as_str()];
     if entry.is_null() {
         return v;
     }
-    let cat = match ps.get(1).map(|p| &p.kind) {
-        Some(Kind::Struct(_)) => "struct",
-        Some(Kind::Fl) | Some(Kind::Sc) => "scalar",
-        Some(Kind::Int(_)) => "int",
-        _ => "none",
-    };
-    let list = if entry.is_object() { &entry[cat] } else { entry };
-    let mutself = ps.first().map(|p| p.is_mut).unwrap_or(false);
+    let list = if entry.is_object() { &entry[second_kind] } else { entry };
     let s0 = if mutself { "old(self)".to_string() } else { "self".to_string() };
-    let p1 = ps.get(1).map(|p| p.name.clone()).unwrap_or_default();
     if let Some(a) = list.as_array() {
         for r in a {
             if let Some(s) = r.as_str() {
-                v.push(s.replace("{0}", &s0).replace("{1}", &p1));
+                v.push(s.replace("{0}", &s0).replace("{1}", p1));
             }
         }
     }
@@ -125,7 +201,7 @@ fn requires_for(contracts: &serde_json::Value, f: &Func, ps: &[ParamSpec]) -> Ve
 
 fn emit_mirror(f: &Func, m: &Mirror) -> String {
     let mut s = String::new();
-    let params = m.params.iter().map(|(n, t)| format!("{}: {t}", spec_ident(n))).collect::<Vec<_>>().join(", ");
+    let params = m.params.iter().map(|(n, t)| format!("{n}: {t}")).collect::<Vec<_>>().join(", ");
     let index: HashMap<&str, usize> = m.lets.iter().enumerate().map(|(i, (n, _, _))| (n.as_str(), i)).collect();
     for (part, e, sort) in &m.outs {
         // dead-let elimination: keep only the bindings this part depends on
@@ -158,10 +234,8 @@ fn emit_mirror(f: &Func, m: &Mirror) -> String {
     s
 }
 
-/// names of the form t_<digits> occurring in an expression
-fn let_refs(e: &str) -> Vec<String> {
+fn scan_lets(e: &str, mut on: impl FnMut(usize, usize)) {
     let b = e.as_bytes();
-    let mut out = vec![];
     let mut i = 0;
     while i < b.len() {
         let prev_ok = i == 0 || !(b[i - 1].is_ascii_alphanumeric() || b[i - 1] == b'_');
@@ -172,47 +246,35 @@ fn let_refs(e: &str) -> Vec<String> {
             }
             let next_ok = j == b.len() || !(b[j].is_ascii_alphanumeric() || b[j] == b'_');
             if next_ok {
-                out.push(e[i..j].to_string());
+                on(i, j);
                 i = j;
                 continue;
             }
         }
         i += 1;
     }
+}
+
+/// names of the form t_<digits> occurring in an expression
+fn let_refs(e: &str) -> Vec<String> {
+    let mut out = vec![];
+    scan_lets(e, |i, j| out.push(e[i..j].to_string()));
     out
 }
 
 fn rename_lets(e: &str, suffix: &str) -> String {
-    // replace every token of the form t_<digits> by t_<digits>_<suffix>
-    let b = e.as_bytes();
-    let mut out = String::with_capacity(e.len() + 16);
-    let mut i = 0;
-    while i < b.len() {
-        let prev_ok = i == 0 || !(b[i - 1].is_ascii_alphanumeric() || b[i - 1] == b'_');
-        if prev_ok && b[i] == b't' && i + 2 < b.len() + 0 && b[i + 1] == b'_' && i + 2 < b.len() && b[i + 2].is_ascii_digit() {
-            let mut j = i + 2;
-            while j < b.len() && b[j].is_ascii_digit() {
-                j += 1;
-            }
-            let next_ok = j == b.len() || !(b[j].is_ascii_alphanumeric() || b[j] == b'_');
-            if next_ok {
-                out.push_str(&e[i..j]);
-                out.push('_');
-                out.push_str(suffix);
-                i = j;
-                continue;
-            }
-        }
-        out.push(b[i] as char);
-        i += 1;
+    let mut spans = vec![];
+    scan_lets(e, |i, j| spans.push((i, j)));
+    let mut out = String::with_capacity(e.len() + 16 * spans.len());
+    let mut last = 0;
+    for (_i, j) in spans {
+        out.push_str(&e[last..j]);
+        out.push('_');
+        out.push_str(suffix);
+        last = j;
     }
+    out.push_str(&e[last..]);
     out
-}
-fn spec_ident(n: &str) -> String {
-    n.to_string()
-}
-fn fix_self(e: &str) -> String {
-    e.to_string()
 }
 
 fn type_to_string(t: &syn::Type, rw: &mut Rw) -> String {
@@ -221,26 +283,55 @@ fn type_to_string(t: &syn::Type, rw: &mut Rw) -> String {
     t.to_token_stream().to_string()
 }
 
+fn dim_expr(d: &str) -> String {
+    if d == "U1" {
+        "1".to_string()
+    } else {
+        format!("dim_{d}()")
+    }
+}
+
 pub fn emit_unit(db: &Db, contracts: &serde_json::Value, unit: &str) -> UnitOut {
     let ti = &db.types[unit];
     let mut exec = String::new();
+    let mut iface = String::new();
     let mut mirror = String::new();
     let mut meta_fns = vec![];
     let mut skipped = vec![];
     let mut rule_counts: BTreeMap<String, usize> = BTreeMap::new();
+    let vec_unit = is_vec_type(db, unit) && unit != "Derivative";
 
     // struct definition (R1: PhantomData field and generics dropped)
     exec.push_str(&format!("// ---- unit {unit}: extracted from expanded source line {} ----\n", ti.line));
-    let fields = ti
-        .parts
-        .iter()
-        .map(|(n, k)| match k {
-            PartKind::Sc => format!("pub {n}: Sc"),
-            PartKind::Deriv(..) => format!("pub {n}: Derivative"),
-        })
-        .collect::<Vec<_>>()
-        .join(", ");
-    exec.push_str(&format!("pub struct {unit} {{ {fields} }}\n"));
+    if unit == "Derivative" {
+        exec.push_str("pub struct Derivative(pub Option<Mx>);\n");
+    } else {
+        let fields = ti
+            .parts
+            .iter()
+            .map(|(n, k)| match k {
+                PartKind::Sc => format!("pub {n}: Sc"),
+                PartKind::Deriv(..) => format!("pub {n}: Derivative"),
+            })
+            .collect::<Vec<_>>()
+            .join(", ");
+        let mut def = format!("pub struct {unit} {{ {fields} }}");
+        if vec_unit {
+            let wf = ti
+                .parts
+                .iter()
+                .filter_map(|(n, k)| match k {
+                    PartKind::Deriv(r, c) => Some(format!("self.{n}.fits({}, {})", dim_expr(r), dim_expr(c))),
+                    _ => None,
+                })
+                .collect::<Vec<_>>()
+                .join(" && ");
+            def.push_str(&format!(" impl {unit} {{ pub open spec fn wf(&self) -> bool {{ {wf} }} }}"));
+        }
+        exec.push_str(&def);
+        exec.push('\n');
+    }
+    iface.push_str(&exec);
 
     // candidate functions
     let cands: Vec<&Func> = db.funcs.iter().filter(|f| f.ty == unit).collect();
@@ -251,13 +342,16 @@ pub fn emit_unit(db: &Db, contracts: &serde_json::Value, unit: &str) -> UnitOut 
             Err(why) => skipped.push(json!({"id": f.id(), "line": f.line, "reason": why})),
         }
     }
+    let is_manual = |f: &Func| contracts["manual"][f.id().as_str()].is_object();
+    // the constructor of a vector type has a field-wise contract (no mirror)
+    let is_vec_new = |f: &Func| vec_unit && f.trait_.is_none() && f.name == "new";
     // mirrors to fixpoint
     let mut sigs: HashMap<String, Mirror> = HashMap::new();
     let mut errs: HashMap<String, String> = HashMap::new();
     loop {
         let mut progress = false;
         for f in &todo {
-            if sigs.contains_key(&f.mname) {
+            if sigs.contains_key(&f.mname) || is_manual(f) || is_vec_new(f) {
                 continue;
             }
             match eval::mirror_of(db, f, &sigs) {
@@ -276,27 +370,59 @@ pub fn emit_unit(db: &Db, contracts: &serde_json::Value, unit: &str) -> UnitOut 
         }
     }
 
-    // group trait impls: each std-op function is its own impl; inherent functions are emitted one impl each
     for f in &todo {
-        let Some(m) = sigs.get(&f.mname) else {
+        let manual = &contracts["manual"][f.id().as_str()];
+        let manual_mode = manual.is_object() || is_vec_new(f);
+        let m_opt = sigs.get(&f.mname);
+        if !manual_mode && m_opt.is_none() {
             skipped.push(json!({"id": f.id(), "line": f.line, "reason": format!("no mirror: {}", errs.get(&f.mname).cloned().unwrap_or_default())}));
             continue;
-        };
-        let ps = match eval::params_of(db, f) {
-            Ok(p) => p,
-            Err(e) => {
-                skipped.push(json!({"id": f.id(), "line": f.line, "reason": e}));
-                continue;
+        }
+        // parameter names (independent of kinds)
+        let mut pnames: Vec<String> = vec![];
+        let mut recv_mut_ref = false;
+        let mut bad = false;
+        for a in &f.item.sig.inputs {
+            match a {
+                FnArg::Receiver(r) => {
+                    pnames.push("self".into());
+                    recv_mut_ref = r.reference.is_some() && r.mutability.is_some();
+                }
+                FnArg::Typed(pt) => match &*pt.pat {
+                    syn::Pat::Ident(i) => pnames.push(i.ident.to_string()),
+                    _ => bad = true,
+                },
             }
-        };
+        }
+        if bad {
+            skipped.push(json!({"id": f.id(), "line": f.line, "reason": "non-identifier parameter pattern"}));
+            continue;
+        }
+        let ps: Vec<ParamSpec> = if manual_mode { vec![] } else { eval::params_of(db, f).unwrap_or_default() };
         // integer-typed names for R9
         let mut ints = HashSet::new();
-        for p in &ps {
-            if matches!(p.kind, Kind::Int(_)) {
-                ints.insert(p.name.clone());
+        for a in &f.item.sig.inputs {
+            if let FnArg::Typed(pt) = a {
+                if let (syn::Pat::Ident(i), syn::Type::Path(tp)) = (&*pt.pat, &*pt.ty) {
+                    if let Some(id) = tp.path.get_ident() {
+                        if ["i32", "usize", "u32", "i64", "u64", "isize"].contains(&id.to_string().as_str()) {
+                            ints.insert(i.ident.to_string());
+                        }
+                    }
+                }
             }
         }
         let mut rw = Rw::new(ints);
+        for g in &f.impl_generics {
+            if g != "T" && g != "F" {
+                rw.dims.insert(g.clone());
+            }
+        }
+        for g in f.item.sig.generics.params.iter() {
+            if let syn::GenericParam::Type(t) = g {
+                rw.dims.insert(t.ident.to_string());
+            }
+        }
         let mut block = f.item.block.clone();
         // R8: by-value `mut self`
         let mut_self_by_value = f.item.sig.inputs.iter().any(|a| matches!(a, FnArg::Receiver(r) if r.reference.is_none() && r.mutability.is_some()));
@@ -327,7 +453,7 @@ pub fn emit_unit(db: &Db, contracts: &serde_json::Value, unit: &str) -> UnitOut 
                     }
                 }
                 FnArg::Typed(pt) => {
-                    let name = ps[i].name.clone();
+                    let name = pnames[i].clone();
                     let ty = if f.is_std_op() && i == 1 {
                         match &f.rhs {
                             Rhs::SelfRef => format!("&{lt_rhs} {}", f.ty),
@@ -340,31 +466,77 @@ pub fn emit_unit(db: &Db, contracts: &serde_json::Value, unit: &str) -> UnitOut 
                 }
             }
         }
-        let ret_ty = kind_to_type(&m.ret);
-        // views of inputs
-        let mut in_views = vec![];
-        for p in &ps {
-            let root = if p.is_mut && p.name == "self" { "old(self)".to_string() } else { p.name.clone() };
-            views(db, &p.kind, &root, &mut in_views);
-        }
-        let args = in_views.join(", ");
-        let mut ens = vec![];
-        let mut accs = vec![];
-        if m.mutates_self {
-            out_accessors(db, &Kind::Struct(f.ty.clone()), "final(self)", "", &mut accs);
+        let ret_ty = match (&f.item.sig.output, m_opt) {
+            (_, Some(m)) if !manual_mode => kind_to_type(&m.ret),
+            (syn::ReturnType::Default, _) => "()".to_string(),
+            (syn::ReturnType::Type(_, t), _) => {
+                let s = type_to_string(t, &mut rw);
+                if s == "Self" || s == "Self :: Output" {
+                    f.ty.clone()
+                } else {
+                    s
+                }
+            }
+        };
+        let p1 = pnames.get(1).cloned().unwrap_or_default();
+        // ---- contract
+        let mut reqs: Vec<String> = vec![];
+        let mut ens: Vec<String> = vec![];
+        if manual.is_object() {
+            for r in manual["requires"].as_array().cloned().unwrap_or_default() {
+                reqs.push(r.as_str().unwrap_or("true").replace("{1}", &p1));
+            }
+            for r in manual["ensures"].as_array().cloned().unwrap_or_default() {
+                ens.push(r.as_str().unwrap_or("true").replace("{1}", &p1).replace("{r}", RES));
+            }
+        } else if is_vec_new(f) {
+            for ((p, k), n) in ti.parts.iter().zip(pnames.iter()) {
+                match k {
+                    PartKind::Sc => ens.push(format!("{RES}.{p}@ == {n}@")),
+                    PartKind::Deriv(..) => ens.push(format!("{RES}.{p} == {n}")),
+                }
+            }
         } else {
-            out_accessors(db, &m.ret, "r", "", &mut accs);
+            let m = m_opt.unwrap();
+            let second_kind = match ps.get(1).map(|p| &p.kind) {
+                Some(Kind::Struct(_)) => "struct",
+                Some(Kind::Fl) | Some(Kind::Sc) => "scalar",
+                Some(Kind::Int(_)) => "int",
+                _ => "none",
+            };
+            reqs = table_requires(contracts, f, second_kind, recv_mut_ref, &p1);
+            for p in &ps {
+                if let Kind::Struct(t) = &p.kind {
+                    if is_vec_type(db, t) {
+                        reqs.push(format!("{}.wf()", if p.is_mut && p.name == "self" { "old(self)" } else { p.name.as_str() }));
+                    }
+                }
+            }
+            if f.trait_.as_deref() == Some("Clone") {
+                // a trait method cannot carry a precondition: well-formedness is preserved rather than required
+                reqs.clear();
+                ensures_for(db, &f.mname, &m.ret, RES, "", &ps, &mut ens);
+                for e in ens.iter_mut() {
+                    if e.ends_with(".wf()") {
+                        *e = format!("self.wf() ==> {e}");
+                    }
+                }
+            } else if m.mutates_self {
+                ensures_for(db, &f.mname, &Kind::Struct(f.ty.clone()), "final(self)", "", &ps, &mut ens);
+            } else {
+                ensures_for(db, &f.mname, &m.ret, RES, "", &ps, &mut ens);
+            }
         }
-        for (part, acc) in &accs {
-            ens.push(format!("{acc} == {}_{}({})", f.mname, part, args));
-        }
-        let reqs = requires_for(contracts, f, &ps);
-        let ret_decl = if m.ret == Kind::Unit { String::new() } else { format!(" -> (r: {ret_ty})") };
+        let has_ret = ret_ty != "()";
+        let ret_decl = if has_ret { format!(" -> ({RES}: {ret_ty})") } else { String::new() };
         let ens_txt = if ens.is_empty() { String::new() } else { format!(" ensures {}", ens.join(", ")) };
         let fn_name = f.name.clone();
 
         let start_line = exec.lines().count() + 1;
-        exec.push_str(&format!("// @fn {} [expanded.rs:{}-{}]\n", f.id(), f.line, f.end_line));
+        let header = format!("// @fn {} [expanded.rs:{}-{}]\n", f.id(), f.line, f.end_line);
+        exec.push_str(&header);
+        iface.push_str(&header);
+        let stub = "{ unimplemented!() }";
         if f.is_std_op() {
             let tr = f.trait_.clone().unwrap();
             let sn = snake(&tr);
@@ -388,53 +560,63 @@ pub fn emit_unit(db: &Db, contracts: &serde_json::Value, unit: &str) -> UnitOut 
             let targ = if has_rhs { format!("<{rhs_ty}>") } else { String::new() };
             let is_assign = tr.ends_with("Assign");
             let out_ty = if is_assign { format!("&{}", f.ty) } else { ret_ty.clone() };
-            let rhs_name = ps.get(1).map(|p| p.name.clone()).unwrap_or_default();
-            let slf = if tr.ends_with("Assign") { "&self" } else { "self" };
-            let req_params = if has_rhs { format!("{slf}, {rhs_name}: {rhs_ty}") } else { slf.to_string() };
-            // in *_req the receiver is by value: old(self) -> self
+            let slf = if is_assign { "&self" } else { "self" };
+            let req_params = if has_rhs { format!("{slf}, {p1}: {rhs_ty}") } else { slf.to_string() };
+            // in *_req the receiver is not a &mut: old(self) -> self
             let req_body = if reqs.is_empty() { "true".to_string() } else { reqs.iter().map(|r| format!("({})", r.replace("old(self)", "self"))).collect::<Vec<_>>().join(" && ") };
-            exec.push_str(&format!(
+            let spec_impl = format!(
                 "impl{gen} vstd::std_specs::ops::{tr}SpecImpl{targ} for {self_ty} {{ open spec fn obeys_{sn}_spec() -> bool {{ false }} open spec fn {sn}_req({req_params}) -> bool {{ {req_body} }} open spec fn {sn}_spec({req_params}) -> {out_ty} {{ arbitrary() }} }}\n"
-            ));
+            );
+            exec.push_str(&spec_impl);
+            iface.push_str(&spec_impl);
             let out_decl = if is_assign { String::new() } else { format!("type Output = {ret_ty}; ") };
-            exec.push_str(&format!(
-                "impl{gen} core::ops::{tr}{targ} for {self_ty} {{ {out_decl}fn {fn_name}({}){ret_decl}{ens_txt}\n{body} }}\n",
-                sig_params.join(", ")
-            ));
+            let head = format!("impl{gen} core::ops::{tr}{targ} for {self_ty} {{ {out_decl}");
+            let sigtxt = format!("fn {fn_name}({}){ret_decl}{ens_txt}", sig_params.join(", "));
+            exec.push_str(&format!("{head}{sigtxt}\n{body} }}\n"));
+            iface.push_str(&format!("{head}#[verifier::external_body] {sigtxt}\n{stub} }}\n"));
+        } else if f.trait_.as_deref() == Some("Clone") && manual["assume"].as_bool() == Some(true) {
+            exec.push_str(&format!("impl Clone for {} {{ #[verifier::external_body] fn clone(&self){ret_decl}{ens_txt}\n{stub} }}\n", f.ty));
+            iface.push_str(&format!("impl Clone for {} {{ #[verifier::external_body] fn clone(&self){ret_decl}{ens_txt}\n{stub} }}\n", f.ty));
         } else if f.trait_.as_deref() == Some("Clone") {
             exec.push_str(&format!("impl Clone for {} {{ fn clone(&self){ret_decl}{ens_txt}\n{body} }}\n", f.ty));
+            iface.push_str(&format!("impl Clone for {} {{ #[verifier::external_body] fn clone(&self){ret_decl}{ens_txt}\n{stub} }}\n", f.ty));
         } else {
             let req_txt = if reqs.is_empty() { String::new() } else { format!(" requires {}", reqs.join(", ")) };
-            exec.push_str(&format!(
-                "impl {} {{ pub fn {fn_name}({}){ret_decl}{req_txt}{ens_txt}\n{body} }}\n",
-                f.ty,
-                sig_params.join(", ")
-            ));
+            let sigtxt = format!("pub fn {fn_name}({}){ret_decl}{req_txt}{ens_txt}", sig_params.join(", "));
+            exec.push_str(&format!("impl {} {{ {sigtxt}\n{body} }}\n", f.ty));
+            iface.push_str(&format!("impl {} {{ #[verifier::external_body] {sigtxt}\n{stub} }}\n", f.ty));
         }
         let end_line = exec.lines().count();
-        mirror.push_str(&emit_mirror(f, m));
+        if let (Some(m), false) = (m_opt, manual_mode) {
+            mirror.push_str(&emit_mirror(f, m));
+        }
         // contract variants: the same verbatim body checked under a different (wider / special-point) domain
-        if !f.is_std_op() && f.trait_.as_deref() != Some("Clone") {
+        if !manual_mode && !f.is_std_op() && f.trait_.as_deref() != Some("Clone") {
             if let Some(vars) = contracts["variants"][f.name.as_str()].as_array() {
                 for v in vars {
                     let suffix = v["suffix"].as_str().unwrap_or("v");
                     let order = contracts["order"][f.ty.as_str()].as_i64().unwrap_or(0);
-                    let p1 = ps.get(1).map(|p| p.name.clone()).unwrap_or_default();
-                    let vreqs: Vec<String> = v["requires"].as_array().map(|a| a.iter().filter_map(|r| r.as_str()).map(|r| r.replace("{0}", "self").replace("{1}", &p1).replace("{order}", &order.to_string())).collect()).unwrap_or_default();
+                    let mut vreqs: Vec<String> = v["requires"]
+                        .as_array()
+                        .map(|a| a.iter().filter_map(|r| r.as_str()).map(|r| r.replace("{0}", "self").replace("{1}", &p1).replace("{order}", &order.to_string())).collect())
+                        .unwrap_or_default();
+                    for p in &ps {
+                        if let Kind::Struct(t) = &p.kind {
+                            if is_vec_type(db, t) {
+                                vreqs.push(format!("{}.wf()", p.name));
+                            }
+                        }
+                    }
                     let req_txt = if vreqs.is_empty() { String::new() } else { format!(" requires {}", vreqs.join(", ")) };
                     let vstart = exec.lines().count() + 1;
                     exec.push_str(&format!("// @fn {}#{} [expanded.rs:{}-{}]\n", f.id(), suffix, f.line, f.end_line));
-                    exec.push_str(&format!(
-                        "impl {} {{ pub fn {fn_name}__{suffix}({}){ret_decl}{req_txt}{ens_txt}\n{body} }}\n",
-                        f.ty,
-                        sig_params.join(", ")
-                    ));
+                    exec.push_str(&format!("impl {} {{ pub fn {fn_name}__{suffix}({}){ret_decl}{req_txt}{ens_txt}\n{body} }}\n", f.ty, sig_params.join(", ")));
                     let vend = exec.lines().count();
                     meta_fns.push(json!({
                         "id": format!("{}#{}", f.id(), suffix), "ty": f.ty, "trait": f.trait_, "name": f.name, "variant": suffix,
                         "mname": format!("{}#{}", f.mname, suffix), "self_ref": f.self_ref, "rhs": format!("{:?}", f.rhs),
                         "src_line": f.line, "src_end_line": f.end_line, "gen_line": vstart, "gen_end_line": vend,
-                        "params": [], "outs": [], "requires": vreqs, "mutates_self": m.mutates_self, "from_default": f.from_default, "rewrites": {},
+                        "params": [], "outs": [], "requires": vreqs, "mutates_self": false, "from_default": f.from_default, "rewrites": {},
                         "props": v["props"].clone(), "what": v["what"].clone(),
                     }));
                 }
@@ -455,20 +637,28 @@ pub fn emit_unit(db: &Db, contracts: &serde_json::Value, unit: &str) -> UnitOut 
             "src_end_line": f.end_line,
             "gen_line": start_line,
             "gen_end_line": end_line,
-            "params": m.params.iter().map(|(n,t)| json!([n,t])).collect::<Vec<_>>(),
-            "outs": m.outs.iter().map(|(p,_,t)| json!([p,t])).collect::<Vec<_>>(),
+            "params": m_opt.map(|m| m.params.iter().map(|(n,t)| json!([n,t])).collect::<Vec<_>>()).unwrap_or_default(),
+            "outs": m_opt.map(|m| m.outs.iter().map(|(p,_,t)| json!([p,t])).collect::<Vec<_>>()).unwrap_or_default(),
             "requires": reqs,
-            "mutates_self": m.mutates_self,
+            "manual": manual_mode,
+            "mutates_self": m_opt.map(|m| m.mutates_self).unwrap_or(false),
             "from_default": f.from_default,
             "rewrites": rw.counts,
+            "props": manual["props"].clone(),
+            "what": manual["what"].clone(),
         }));
     }
+    let leaves: Vec<String> = if unit == "Derivative" { vec![] } else { vec_leaves(db, unit).into_iter().map(|(n, _, _)| n).collect() };
+    let outs: Vec<String> = if unit == "Derivative" { vec![] } else { vec_outs(db, unit).into_iter().map(|(n, _, _)| n).collect() };
     UnitOut {
         exec,
+        iface,
         mirror,
         meta: json!({
             "unit": unit,
             "parts": ti.parts.iter().map(|(n,k)| json!([n, format!("{:?}", k)])).collect::<Vec<_>>(),
+            "leaves": leaves,
+            "outs": outs,
             "functions": meta_fns,
             "skipped": skipped,
             "rewrite_rule_counts": rule_counts,
